@@ -36,8 +36,8 @@ RULE = ('every set partition of n<=5 nodes (n<=6 thorough), written with restric
         '(all pairs n<=4, n<=5 thorough; random pairs beyond) for partition_distance; stacks of 1-4 partitions for agreement; '
         'random partitions of n<=9; n = 1; non-zero diagonals (30 %); labels also as list / float64 / int32, and as 2-D arrays: every consumer gets the '
         'base labels as a 1 x N and an N x 1 array (it may refuse them - counted under label-layout-refused:* - but a returned value must be '
-        'the 1-D value; a quarter of the base cases), partition_distance gets all eight 2-D layout pairs (1xN/1xN, Nx1/Nx1, 1xN/1-D, 1-D/1xN must return the 1-D result; Nx1 '
-        'paired with 1-D or 1xN may raise, a silently different value is the open finding partition_distance:mixed-layout) on 20 % of its pairs; gateway_coef_sign with both centrality '
+        'the 1-D value; a quarter of the base cases), partition_distance gets all nine layout pairs of {1-D, 1xN, Nx1} (every pair must return the 1-D result; Nx1 '
+        'paired with 1-D or 1xN under the key partition_distance:mixed-layout, ordinary clause since the repair /repo 903f1ee) on 20 % of its pairs; gateway_coef_sign with both centrality '
         'types; ls2ci on shuffled block lists (with an empty block) and the empty / IndexError cases, its zeroindexed flag spelled True / 1 / np.True_ and False / 0 / np.False_ in rotation; agreement with buffsz that splits the stack '
         'unevenly; partition_distance with 1100 blocks. non-trivial = at least two blocks and a relabelling that changes a label; '
         'distinct by hash of (function, matrix, labels)')
@@ -652,14 +652,14 @@ def run(ctx):
                 except Exception as e:
                     ctx.fail('partition_distance:label-container', 'raised %r when the labels come as %s' % (e, an), dict(case, container=an))
         # layouts of the label vectors: N x 1 (as documented), 1 x N (what scipy.io.loadmat gives for a MATLAB row vector), 1-D.  The node
-        # count is the number of LABELS, whatever the shape.  Same layout on both sides, or 1-D with 1 x N: must return the 1-D result.
-        # N x 1 paired with 1-D / 1 x N: raising is acceptable, a silently different value is not (open finding partition_distance:mixed-layout:
-        # the two vectors are broadcast against each other into an N x N joint table)
+        # count is the number of LABELS and the two vectors are paired node by node, whatever their shapes: all nine layout pairs (1-D / 1-D is
+        # the call above) must return the 1-D result.  Regression clause for /repo 903f1ee: before it N x 1 paired with 1-D / 1 x N was
+        # broadcast into an N x N joint table (key partition_distance:mixed-layout: identical partitions gave (-1, 2))
         if n >= 2 and ctx.rng.random() < 0.2:
             lay = {'1-D': lambda v: np.array(v, dtype=np.int64), '1xN': lambda v: np.array(v, dtype=np.int64).reshape(1, -1),
                    'Nx1': lambda v: np.array(v, dtype=np.int64).reshape(-1, 1)}
             for la, lb in (('1xN', '1xN'), ('Nx1', 'Nx1'), ('1xN', '1-D'), ('1-D', '1xN'), ('Nx1', '1-D'), ('1-D', 'Nx1'), ('1xN', 'Nx1'), ('Nx1', '1xN')):
-                mixed = (la == 'Nx1') != (lb == 'Nx1')
+                lkey = 'partition_distance:mixed-layout' if (la == 'Nx1') != (lb == 'Nx1') else 'partition_distance:label-container'
                 lcase = dict(case, layout=[la, lb])
                 ctx.count('partition_distance:layout:%s,%s' % (la, lb))
                 try:
@@ -667,11 +667,8 @@ def run(ctx):
                         alt = call(bct.partition_distance, lay[la](cx), lay[lb](cy))
                     ok = np.shape(alt[0]) == () and np.shape(alt[1]) == () and close([float(alt[0]), float(alt[1])], [vin, mi])
                 except Exception as e:
-                    if mixed:
-                        ctx.count('partition_distance:layout-mixed-raises'); continue
-                    ctx.fail('partition_distance:label-container', 'raised %r when the labels come as %s / %s arrays' % (e, la, lb), lcase); continue
-                ctx.check(ok, 'partition_distance:mixed-layout' if mixed else 'partition_distance:label-container',
-                          'cx given as %s, cy as %s: (VIn, MIn) = %s, the same labels as 1-D vectors give (%r, %r)' % (la, lb, tolist(alt), vin, mi), lcase)
+                    ctx.fail(lkey, 'raised %r when the labels come as %s / %s arrays' % (e, la, lb), lcase); continue
+                ctx.check(ok, lkey, 'cx given as %s, cy as %s: (VIn, MIn) = %s, the same labels as 1-D vectors give (%r, %r)' % (la, lb, tolist(alt), vin, mi), lcase)
         if with_model:
             model('pd %s %s' % (enc_list(cx, enc_zb), enc_list(cy, enc_zb)), 'pd', case, (vin, mi, trivial))
 
